@@ -437,6 +437,7 @@ def c12_oracle(case, out, model_out):
 
 
 PROPS["C12"] = {
+    "level": "translation_validation",
     "gen": c12_gen, "oracle": c12_oracle, "release": False, "model_env": {"EVX_WRAPPERS": "1"},
     "rule": "every case runs all 48 evaluation entry points (2 levels x 3 context modes x 8 result types; the mutable ones only on contexts that implement ContextWithMutableVariables) plus build_operator_tree on clones of one context; sources: fixed distinguishing strings, generated programs, near misses (one token deleted), character soup; contexts: populated HashMapContext, NoStore, EmptyContext, EmptyContextWithBuiltinFunctions; the model side runs the wrappers TRANSLATED from the source; non-trivial = at least one entry point returns a value",
     "nontrivial": lambda c, out: " OK " in out or out.startswith("OK "),
@@ -2055,4 +2056,255 @@ PROPS["C07"] = {
     "nontrivial": lambda c, out: len(c[1].get("tokens", [0, 0])) > 1,
     "assumptions": ["valid separator rule of tools/gen.py (fuses, sci_risk): twin of Spec/LexSpec.v valid_seps; used only to search for failing inputs",
                     "model of the tokenizer equals the Rust code: correspondence of this run; the character-class table is regenerated exhaustively"],
+}
+
+
+# ---------------------------------------------------------------------------------------------
+# C01: never panics
+# ---------------------------------------------------------------------------------------------
+import audit as A  # noqa: E402
+
+
+def c01_gen(tier, rng):
+    cases = []
+    P, SP = G.pool(), G.small_pool()
+    # every builtin x argument shapes of arity 0..3
+    for n in L.DOCUMENTED_BUILTINS:
+        for a in P:
+            cases.append((G.call_case(n, a), {"kind": "builtin"}))
+        for a in SP:
+            for b in SP:
+                cases.append((G.call_case(n, G.vT([a, b])), {"kind": "builtin"}))
+        for _ in range(120 if tier == "quick" else 4000):
+            cases.append((G.call_case(n, G.vT([rng.choice(P) for _ in range(rng.choice([0, 1, 2, 3, 3, 3]))])), {"kind": "builtin"}))
+    for n in ("shl", "shr"):
+        for a in G.INTS:
+            for b in list(range(-70, 140)) + G.INTS:
+                cases.append((G.call_case(n, G.vT([G.vI(a), G.vI(b)])), {"kind": "builtin"}))
+    for s in G.STRINGS + [G.rand_unicode_string(rng, 6) for _ in range(60)]:
+        bl = len(s.encode("utf-8"))
+        for a in range(-2, bl + 3):
+            for b in range(-2, bl + 3):
+                cases.append((G.call_case("str::substring", G.vT([G.vS(s), G.vI(a), G.vI(b)])), {"kind": "builtin"}))
+    # operators on all pairs
+    for op in G.BINOPS:
+        for a in SP:
+            for b in SP:
+                cases.append((G.op_case_vars(op, a, b), {"kind": "op"}))
+        for a in G.INTS:
+            for b in G.INTS:
+                if rng.random() < 0.3:
+                    cases.append((G.op_case_vars(op, G.vI(a), G.vI(b)), {"kind": "op"}))
+    # token soup, character soup, programs, near misses through all entry points
+    n = 15000 if tier == "quick" else 400000
+    for seq in G.token_sequences_exhaustive(G.TOKEN_ALPHABET16, 3 if tier == "quick" else 4):
+        cases.append(c12_case("H", C12_SETUP, " ".join(seq)))
+    for seq in G.token_sequences_random(rng, n, maxlen=14):
+        src = " ".join(seq)
+        cases.append((G.script("H", C12_SETUP + ["evc build " + hexs(src), "evc smv " + hexs(src), "evc srv " + hexs(src)]), {"kind": "token-soup"}))
+        cases.append(("ITER\t" + hexs(src), {"kind": "iter"}))
+    for s in G.char_soup(rng, n, maxlen=24):
+        cases.append(("TOK\t" + hexs(s), {"kind": "char-soup"}))
+        cases.append((G.script(rng.choice(["H", "N", "E", "EB"]), ["evc build " + hexs(s), "evc srv " + hexs(s)]), {"kind": "char-soup"}))
+    for _ in range(n // 3):
+        s = G.rand_unicode_string(rng, 40)
+        cases.append((G.script("H", ["evc build " + hexs(s), "evc sfv " + hexs(s)]), {"kind": "unicode"}))
+    for _ in range(n // 2):
+        raw = G.rand_seq(rng, 3) if rng.random() < 0.3 else G.rand_expr(rng, rng.randint(1, 6))
+        e = G.parenthesize_seq(raw) if raw[0] in ("tuple", "chain") else G.parenthesize(raw)
+        toks = G.flatten(e)
+        if rng.random() < 0.3 and toks:
+            toks[rng.randrange(len(toks))] = rng.choice(G.TOKEN_ALPHABET_FULL)
+        src = G.render(toks, rng, "random")
+        cases.append((G.script("H", C12_SETUP + ["evc smv " + hexs(src), "evc nrv " + hexs(src), "evc sfi " + hexs(src)]), {"kind": "program"}))
+    return cases
+
+
+DEEP = [("-" * 4095 + "1", "neg"), ("(" * 2048 + ")" * 2048, "paren"), ("f " * 2047 + "1", "call"), ("a=" * 2047 + "1", "assign"),
+        ("1^" * 2047 + "1", "exp"), ("!" * 4092 + "true", "not"), ("(1," * 1024 + "1" + ")" * 1024, "tuple"), ("1+" * 2047 + "1", "add"),
+        ("(" * 4096, "open"), (")" * 4096, "close"), ("1;" * 2048, "chain"), ("1," * 2048, "flat-tuple"), ('"' + "\\\\" * 2047 + '"', "escapes"),
+        ("/*" + "*" * 4092 + "*/", "comment"), ("a" * 4096, "ident"), ("9" * 4096, "digits"), ("1e" + "9" * 4000, "exponent")]
+
+
+def c01_special(tier, rng, hooks):
+    """the 4096-character nesting corpus, one process per input (an abort is observed, not suffered);
+    the panic-site audit"""
+    fails = []
+    cov = {}
+    lines = []
+    for i, (src, name) in enumerate(DEEP):
+        lines.append("%d\t%s" % (i, G.script("H", ["evc build " + hexs(src), "evc smv " + hexs(src), "evc srv " + hexs(src)])))
+        lines.append("%d\tITER\t%s" % (1000 + i, hexs(src)))
+    for profile in ("debug", "release"):
+        outs, errs = L.run_impl(lines, profile, tag="deep", shards=len(lines))
+        for l in lines:
+            k = l.split("\t")[0]
+            o = outs.get(k)
+            name = DEEP[int(k) % 1000][1]
+            if o is None:
+                fails.append({"why": "the process evaluating the 4096-character input %r (%s build) died without output (abort / stack overflow)" % (name, profile), "case": l.split("\t", 1)[1][:200] + "...", "observed": "no output"})
+            elif o.startswith("PANIC"):
+                fails.append({"why": "panic on the 4096-character input %r (%s build): %s" % (name, profile, o), "case": l.split("\t", 1)[1][:200] + "...", "observed": o})
+    cov["deep_nesting_inputs"] = len(DEEP)
+    new_sites, cur = A.panic_site_audit()
+    cov["panic_sites_in_source"] = len(cur)
+    cov["panic_sites_unknown_to_model"] = new_sites
+    if new_sites and not fails:
+        fails.append({"why": "the source has potential panic sites the model does not know (tools/panic_sites.json): %s" % new_sites[:5], "has_input": False, "kind": "obligation-broken"})
+    return {"failures": fails, "coverage": cov}
+
+
+def c01_oracle(case, out, model_out):
+    if out.startswith("PANIC"):
+        return "the library panicked: %s" % out
+    return None
+
+
+PROPS["C01"] = {
+    "gen": c01_gen, "oracle": c01_oracle, "special": c01_special, "release": True,
+    "rule": "every builtin x every value of the edge pool, all pairs of the small pool, random tuples up to arity 3, all shift amounts -70..139, all byte offsets of str::substring; all operators on all pairs; all token sequences of length <= 3 (quick) / 4 (thorough) through all 48 entry points; random token sequences, character soup (operators, quotes, backslashes, comment markers, exotic whitespace), random Unicode strings, generated programs with one token replaced, through string/tree, typed/untyped, shared/mutable entry points and the iterators, with Display and Debug of every result; debug (overflow checks) and release builds; 17 inputs of 4096 characters (deep nesting), one process each; every harness call under catch_unwind; non-trivial = every case",
+    "nontrivial": lambda c, out: True,
+    "assumptions": ["stack depth in bytes and allocation failure are runtime behaviour the model cannot exhibit: the theorem bounds the recursion depth by the input length, the 4096-character corpus is run on an 8 MiB main-thread stack",
+                    "user functions do not panic (the property's hypothesis)",
+                    "std formatting of values, errors and trees is executed under the guard, not modelled"],
+}
+
+
+# ---------------------------------------------------------------------------------------------
+# C15: Send + Sync (rustc), purity audit, stress
+# ---------------------------------------------------------------------------------------------
+
+def c15_gen(tier, rng):
+    # the ordinary correspondence on read-only evaluation of shared programs
+    cases = []
+    for _ in range(3000 if tier == "quick" else 40000):
+        raw = G.rand_expr(rng, rng.randint(1, 4), allow_asg=False)
+        e = G.parenthesize(raw)
+        src = G.render(G.flatten(e), None, "space")
+        cases.append((G.script("H", C12_SETUP + ["ev srv " + hexs(src), "ev nrv " + hexs(src), "dump"]), {"kind": "ro", "src": src}))
+    return cases
+
+
+def c15_special(tier, rng, hooks):
+    fails, cov = [], {}
+    ok, hk, lg = L.ensure_harness("release", sendsync=True)
+    cov["send_sync_assertions_compile"] = ok
+    if not ok:
+        m = re.search(r"error\[E0277\][^\n]*\n(?:[^\n]*\n){0,12}", lg)
+        fails.append({"why": "the compile-time assertions `T: Send + Sync` for Node, Value, EvalexprError, Function, Operator, HashMapContext, EmptyContext, EmptyContextWithBuiltinFunctions do not compile", "detail": (m.group(0) if m else lg[-1500:]), "case": "harness/src/send_sync.rs static_assertions()", "observed": "rustc error"})
+        return {"failures": fails, "coverage": cov}
+    pur = A.purity()
+    cov["purity_audit_findings"] = pur
+    # stress: shared Arc<Node> x Arc<HashMapContext>, 16 threads
+    progs = []
+    for i in range(300 if tier == "quick" else 3000):
+        raw = G.rand_expr(rng, rng.randint(1, 5), allow_asg=False)
+        src = G.render(G.flatten(G.parenthesize(raw)), None, "space")
+        progs.append("%d\t%s" % (i, hexs(src)))
+    os.makedirs(L.WORK, exist_ok=True)
+    path = os.path.join(L.WORK, "threads.cases")
+    open(path, "w").write("\n".join(progs) + "\n")
+    rc, out, err = L.sh([L.harness_bin("release", sendsync=True), "threads", path], timeout=600)
+    mism = [l for l in out.splitlines() if l.startswith("MISMATCH")]
+    summ = [l for l in out.splitlines() if l.startswith("THREADS")]
+    cov["stress"] = summ[0] if summ else "no summary (rc=%d) %s" % (rc, err[-300:])
+    for l in mism[:3]:
+        f = l.split("\t")
+        fails.append({"why": "a thread evaluating a shared tree against a shared context got a result different from the sequential one", "case": "program #%s of work/threads.cases" % f[1], "observed": "sequential %s, concurrent %s" % (f[2], f[3])})
+    if rc != 0 and not mism:
+        fails.append({"why": "the multi-threaded stress run crashed: " + err[-500:], "case": "harness threads", "observed": "rc=%d" % rc})
+    if pur and not fails:
+        fails.append({"why": "the premise of the schedule-independence theorem is no longer established: read-only evaluation may touch shared mutable state: %s" % pur[:5], "has_input": False, "kind": "obligation-broken"})
+    return {"failures": fails, "coverage": cov}
+
+
+PROPS["C15"] = {
+    "gen": c15_gen, "special": c15_special, "level": "other",
+    "explanation": "partial: rustc decides Send + Sync, a Coq theorem gives schedule independence under the no-shared-mutable-state premise, a source audit establishes the premise, a stress run samples real interleavings",
+    "rule": "Send + Sync of the eight public types decided by rustc (harness feature sendsync); purity audit of src/ (no static, thread_local, Cell, RefCell, UnsafeCell, Mutex, RwLock, Atomic*, Once*, Rc, unsafe; forbid(unsafe_code) present); stress run: 16 threads x 8 rounds evaluating shared Arc<Node> against one shared Arc<HashMapContext>, each result compared with the sequential one; plus the ordinary correspondence of read-only evaluation; non-trivial = every program",
+    "nontrivial": lambda c, out: True,
+    "assumptions": ["real interleavings under the hardware memory model are outside any Gallina model: the theorem assumes thread-private state and shared immutable data, the audit and rustc establish that premise for this tree",
+                    "PARTIAL: a cache behind a Mutex would pass rustc, fail the audit and be reported as no-failing-input-found unless the stress run catches a wrong result"],
+}
+
+
+# ---------------------------------------------------------------------------------------------
+# C16: serde round trips (harness feature serde, real ron)
+# ---------------------------------------------------------------------------------------------
+
+def c16_gen(tier, rng):
+    # the tree half goes through the ordinary correspondence as well (deserialize = build_operator_tree)
+    cases = []
+    for _ in range(2000 if tier == "quick" else 30000):
+        raw = G.rand_seq(rng, 2) if rng.random() < 0.3 else G.rand_expr(rng, rng.randint(1, 4))
+        e = G.parenthesize_seq(raw) if raw[0] in ("tuple", "chain") else G.parenthesize(raw)
+        toks = G.flatten(e)
+        if rng.random() < 0.3 and toks:
+            toks.pop(rng.randrange(len(toks)))
+        cases.append(("TREE\t" + hexs(G.render(toks, rng, "random")), {"kind": "tree"}))
+    return cases
+
+
+def c16_special(tier, rng, hooks):
+    fails, cov = [], {}
+    ok, hk, lg = L.ensure_harness("debug", serde=True)
+    cov["serde_harness_compiles"] = ok
+    if not ok:
+        m = re.search(r"error\[E\d+\][^\n]*\n(?:[^\n]*\n){0,14}", lg)
+        fails.append({"why": "with the serde feature, HashMapContext<DefaultNumericTypes> / Node do not (de)serialize: the harness does not compile", "detail": (m.group(0) if m else lg[-1500:]), "case": "harness/src/serde_cases.rs", "observed": "rustc error"})
+        return {"failures": fails, "coverage": cov}
+    lines = []
+    n = 3000 if tier == "quick" else 40000
+    for i in range(n):
+        k = rng.random()
+        if k < 0.5:
+            raw = G.rand_seq(rng, 2) if rng.random() < 0.3 else G.rand_expr(rng, rng.randint(1, 4))
+            e = G.parenthesize_seq(raw) if raw[0] in ("tuple", "chain") else G.parenthesize(raw)
+            toks = G.flatten(e)
+            if rng.random() < 0.3 and toks:
+                toks.pop(rng.randrange(len(toks)))
+            src = G.render(toks, rng, "random")
+        elif k < 0.8:
+            src = rng.choice(G.char_soup(rng, 1, 16))
+        else:
+            src = G.rand_unicode_string(rng, 12)
+        lines.append("%d\tSERDEN\t%s" % (i, hexs(src)))
+    for src in ["", " ", "  a + 1  ", "\ta\n", "1 +", ")", "\"", "a /* x", "1, 2; 3"]:
+        lines.append("%d\tSERDEN\t%s" % (len(lines), hexs(src)))
+    for i in range(n // 2):
+        ops = []
+        for _ in range(rng.randint(0, 8)):
+            r = rng.random()
+            if r < 0.7:
+                ops.append("set %s %s" % (hexs(rng.choice(["a", "b", "ä", "", "x y", "z"])), G.rand_value(rng) if rng.random() < 0.6 else rng.choice(G.pool())))
+            elif r < 0.85:
+                ops.append("off %d" % (rng.random() < 0.5))
+            else:
+                ops.append("setfn " + hexs(rng.choice(["f", "a", "max"])))
+        lines.append("%d\tSERDEC\t%s" % (len(lines), ";".join(ops)))
+    outs, errs = L.run_impl(lines, "debug", serde=True, tag="serde")
+    ns = nc = 0
+    for l in lines:
+        k = l.split("\t")[0]
+        o = outs.get(k, "")
+        if "SERDEN" in l:
+            ns += 1
+        else:
+            nc += 1
+        if not o.startswith("SAME"):
+            kind = "string" if "SERDEN" in l else "context"
+            fails.append({"why": "serde round trip of a %s differs from the direct result: %s" % (kind, o[:400]), "case": l.split("\t", 1)[1][:400], "observed": o[:400]})
+    cov["serde_node_roundtrips"] = ns
+    cov["serde_context_roundtrips"] = nc
+    fails.sort(key=lambda f: len(f["case"]))
+    return {"failures": fails, "coverage": cov}
+
+
+PROPS["C16"] = {
+    "level": "other",
+    "explanation": "partial: Coq theorems cover the evalexpr-owned logic (Deserialize for Node = build_operator_tree; field selection of the context for any round-tripping codec); serde derive output and the ron wire format are exercised by real round trips",
+    "gen": c16_gen, "special": c16_special,
+    "rule": "real ron round trips in the harness built with the serde feature: for generated programs, near misses, character soup and random Unicode strings, ron::from_str::<Node> of the RON string literal against build_operator_tree (trees equal / error messages contained); for random HashMapContexts (all value types, NaN, -0.0, nested tuples, odd names, functions, both switch positions) serialize -> deserialize -> same sorted variable map (floats by bits), same switch, no user function resolves; non-trivial = every round trip",
+    "nontrivial": lambda c, out: True,
+    "assumptions": ["PARTIAL: serde's derive output and the ron wire format are exercised, not modelled; the theorems cover only Deserialize for Node = build_operator_tree and the field selection of the context for any round-tripping codec"],
 }
